@@ -383,9 +383,19 @@ class MixinAnalysis:
                 else:
                     ks.append(s.x[2])
             if outcome[0] == "return" and trace_main is trace:
-                visited = [ev.outcome for ev in trace if ev.kind == "ITER" and ev.a == xs and ev.func is func]
-                assigned = [ev.recv[2] for ev in trace if ev.kind == "ENTER" and ev.func.kind == "setter" and ev.func.srcname == "parent"
-                            and ev.recv[0] == "elem" and ev.recv[1] == xs and ev.args and ev.args[0] == nrole]
+                enters = [ev for ev in trace if ev.kind == "ENTER" and ev.func.kind == "setter" and ev.func.srcname == "parent"
+                          and ev.recv[0] == "elem" and ev.recv[1] == xs and ev.args and ev.args[0] == nrole]
+                assigned = [ev.recv[2] for ev in enters]
+                # the loop(s) that contain the assignment statement (validation loops over the same tuple do not count)
+                import ast as _ast
+                attach_loops = set()
+                for ev in trace:
+                    if ev.kind == "ITER" and ev.a == xs and ev.func is func and any(
+                            any(x is en.node for x in _ast.walk(ev.node)) for en in enters):
+                        attach_loops.add(id(ev.node))
+                visited = [ev.outcome for ev in trace if ev.kind == "ITER" and ev.a == xs and ev.func is func and id(ev.node) in attach_loops]
+                if not attach_loops:
+                    visited = assigned
                 if visited != assigned:
                     out.setdefault(("E5", func.where, "skipped"), (Problem(
                         "E5", att[0].wl, "not every new child visited by the attach loop is assigned `child.parent = node` "
